@@ -444,6 +444,41 @@ def views(bl):
     return out
 
 
+def near_misses(m):
+    """Bond mappings that differ from m.b as little as possible (see check_reg)."""
+    items = sorted(m.b.items())
+    out = []
+    if items:
+        (i, j), t = items[0]
+        d = dict(m.b)
+        d[(i, j)] = (t + 1) % 7
+        out.append(("one type changed", d))
+        d = dict(m.b)
+        del d[items[-1][0]]
+        out.append(("one bond fewer", d))
+    free = [(a, b) for a in range(min(m.n, 6)) for b in range(a + 1, min(m.n, 6)) if (a, b) not in m.b]
+    if free:
+        d = dict(m.b)
+        d[free[0]] = 1
+        out.append(("one bond more", d))
+    for x in range(min(len(items), 40)):
+        for y in range(x + 1, min(len(items), x + 4)):
+            (a, b), t1 = items[x]
+            (c, e), t2 = items[y]
+            if t1 != t2 and not any(l == "two bonds exchanged their types" for l, _ in out):
+                d = dict(m.b)
+                d[(a, b)], d[(c, e)] = t2, t1
+                out.append(("two bonds exchanged their types", d))
+            # (a,b),(c,e) -> (a,e),(c,b): the multisets of lower atoms, of higher atoms and of types stay what they were
+            if b != e and a < e and c < b and (a, e) not in m.b and (c, b) not in m.b and \
+                    not any(l == "two bonds exchanged their partners" for l, _ in out):
+                d = dict(m.b)
+                del d[(a, b)], d[(c, e)]
+                d[(a, e)], d[(c, b)] = t1, t2
+                out.append(("two bonds exchanged their partners", d))
+    return out
+
+
 def expected_views(m):
     items = sorted((i, j, t) for (i, j), t in m.b.items())
     per_atom = [[] for _ in range(m.n)]
@@ -514,6 +549,20 @@ class Sim:
         st, eq = call(lambda: bl == other)
         if st == "exc" or eq is not False:
             self.fail("view:eq-with-different-list", after=after, got=eq if st == "ok" else exc_name(eq))
+        # near misses: lists that differ from the model in one place, or in two places that compensate each other in every
+        # per-column statistic (two bonds exchanged their types / their partner atoms); all must compare unequal, both ways
+        if self.step % 2 == 0 and m.n <= 400:
+            for label, bonds in near_misses(m):
+                nm = self.BL(m.n, np.array([[i, j, t] for (i, j), t in sorted(bonds.items())], dtype=np.int64).reshape(-1, 3))
+                for side, fn in (("left", lambda: bl == nm), ("right", lambda: nm == bl)):
+                    st, eq = call(fn)
+                    if st == "exc" or eq is not False:
+                        self.fail("view:eq-true-for-different-list", after=after, what=label, live_list_on=side,
+                                  got=eq if st == "ok" else exc_name(eq))
+                st, ne = call(lambda: bl != nm)
+                if st == "exc" or ne is not True:
+                    self.fail("view:ne-false-for-different-list", after=after, what=label, got=ne if st == "ok" else exc_name(ne))
+            self.res.stats["probe:eq-near-misses"] += 1
         if self.step % 4 == 0:
             st, g = call(bl.as_graph)
             if st == "exc":
